@@ -114,6 +114,14 @@ func Content(class string, seed int64, fileIdx, n, sliceSize int) []byte {
 			b[i] = p[i%3]
 		}
 		return b
+	case "repslice":
+		// the first three slices are identical (one slice content at three locations), the rest is unique
+		b := Content("uniq", seed, fileIdx, n, sliceSize)
+		if n >= 4*sliceSize {
+			copy(b[sliceSize:2*sliceSize], b[0:sliceSize])
+			copy(b[2*sliceSize:3*sliceSize], b[0:sliceSize])
+		}
+		return b
 	case "dupslice":
 		b := Content("uniq", seed, fileIdx, n, sliceSize)
 		if n >= 3*sliceSize {
